@@ -47,6 +47,7 @@ BOUNDS = {
 }
 OUTSIDE = ["paths with empty segments (doubled / trailing slashes)", "fully symbolic path strings through the whole store (the segment alphabet is the bound there; loc.* covers the path -> location mapping on symbolic strings)", "a path committed to a key whose blob was never stored (dds commits paths only after storing)", "DBFS store (see C19)"]
 ASSUMPTIONS = ["file-system model = POSIX semantics as validated by the differential self-test", "content-addressed use: one value per key", "clock stub: meta timestamp is a constant"]
+BUDGET_S = {"thorough": 1200}  # wall budget of the thorough tier: queries not started by then are reported as not run
 LAST_DETAIL = [""]
 OPS = ["store", "has", "fetch", "sync", "fpaths", "reopen"]
 
